@@ -562,7 +562,7 @@ impl World {
             "Fund" => self.v.run(
                 &self.names["x"],
                 &self.names[call["m"].as_str().unwrap()],
-                &TokenAmount::from_nano(call["nano"].as_i64().unwrap()),
+                &(TokenAmount::from_nano(call["nano"].as_i64().unwrap()) + TokenAmount::from_whole(call["whole"].as_i64().unwrap_or(0))),
                 fvm_shared::METHOD_SEND,
                 None,
             ),
@@ -1038,8 +1038,34 @@ fn goal_call(rng: &mut Rng, w: &World, policy: &Policy, view: &View) -> Option<V
                     w.goal_dl.set(epoch);
                     Some(json!({"a": "Withdraw", "m": m, "c": "owner", "nano": 0, "all": true}))
                 }
+                2 => {
+                    w.goal_state.set(3);
+                    Some(json!({"a": "Tick", "n": 2}))
+                }
+                3 => {
+                    // a consensus-fault report: the penalty exceeds everything the miner holds and becomes fee debt
+                    w.goal_state.set(4);
+                    Some(json!({"a": "ReportFault", "m": m, "age": 1, "proven": true, "failSend": false, "target": m}))
+                }
+                5 => {
+                    // (after a top-up that covers the debt) a withdrawal that pays out nothing or next to nothing
+                    w.goal_state.set(4);
+                    Some(json!({"a": "Withdraw", "m": m, "c": "owner", "nano": *rng.pick(&[0, 0, 1])}))
+                }
                 _ => {
                     if epoch - w.goal_dl.get() > 4 * period + 12 || secs.iter().all(|s| !s.live()) { done(w); w.neglect.set(false); return None; }
+                    let limbs = ms["debt"].as_array().unwrap();
+                    // (mostly after the fault time-out two and a half periods in, so that the time-out meets the debt)
+                    if limbs.len() > 1 && ((epoch - w.goal_dl.get() > 2 * period + 18 && rng.chance(25)) || rng.chance(2)) {
+                        let mut debt: u128 = 0;
+                        for x in limbs.iter().skip(1).rev() {
+                            debt = debt * 10_000 + x.as_u64().unwrap() as u128;
+                        }
+                        let whole = (debt / 1_000_000_000_000_000_000) as i64;
+                        let nano = ((debt % 1_000_000_000_000_000_000) / 1_000_000_000) as i64 + 1;
+                        w.goal_state.set(5);
+                        return Some(json!({"a": "Fund", "m": m, "whole": whole, "nano": nano + *rng.pick(&[0, 0, 1000])}));
+                    }
                     if rng.chance(45) {
                         Some(json!({"a": "Fund", "m": m, "nano": *rng.pick(&[1, 1, 50, 1000, 100_000])}))
                     } else {
@@ -1209,6 +1235,47 @@ fn random_call(rng: &mut Rng, w: &World, policy: &Policy) -> Value {
         }
     }
     if (67..71).contains(&k) && !parts.is_empty() {
+        // extension, valid by construction most of the time: one to three partitions (often of ONE deadline, sometimes of
+        // several) extended to ONE new expiration; sectors with verified data declare their claims (kept, or dropped at
+        // the end of their life)
+        let svs = sec_views(ms);
+        let act: Vec<&SecView> = svs.iter().filter(|s| s.active() && s.exp >= epoch).collect();
+        if !act.is_empty() {
+            let mut groups: Vec<(i64, u64)> = act.iter().map(|s| (s.dl, s.p)).collect();
+            groups.sort();
+            groups.dedup();
+            let first = *rng.pick(&groups);
+            let same_dl: Vec<(i64, u64)> = groups.iter().filter(|g| g.0 == first.0 && **g != first).cloned().collect();
+            let other: Vec<(i64, u64)> = groups.iter().filter(|g| g.0 != first.0).cloned().collect();
+            let mut chosen = vec![first];
+            if !same_dl.is_empty() && rng.chance(60) { chosen.push(*rng.pick(&same_dl)); }
+            if !other.is_empty() && rng.chance(35) { chosen.push(*rng.pick(&other)); }
+            let max_exp = act.iter().filter(|s| chosen.contains(&(s.dl, s.p))).map(|s| s.exp).max().unwrap();
+            let new_exp = max_exp + *rng.pick(&[0, 1, 24, 48, 24, 1000, -1]);
+            let sc = w.sector_claims.borrow();
+            let mut decls = vec![];
+            for g in &chosen {
+                let mut plain = vec![];
+                let mut claims = vec![];
+                for s in act.iter().filter(|s| (s.dl, s.p) == *g) {
+                    if !rng.chance(80) { continue; }
+                    match sc.get(&(m.clone(), s.n)) {
+                        Some(ids) if s.vw > 0 => {
+                            let drop = s.exp - epoch < policy.end_of_life_claim_drop_period && rng.chance(50);
+                            claims.push(json!({"n": s.n, "maintain": if drop { vec![] } else { ids.clone() }, "drop": if drop { ids.clone() } else { vec![] }}));
+                        }
+                        _ => plain.push(s.n),
+                    }
+                }
+                if plain.is_empty() && claims.is_empty() { continue; }
+                let mut d = json!({"dl": g.0, "p": g.1, "s": plain, "exp": new_exp});
+                if !claims.is_empty() { d["claims"] = json!(claims); }
+                decls.push(d);
+            }
+            if !decls.is_empty() {
+                return json!({"a": "Extend", "m": m, "c": who, "decls": decls});
+            }
+        }
         let p = rng.pick(&parts);
         let live: Vec<u64> = p.2.iter().filter(|s| !p.6.contains(s)).cloned().collect();
         if !live.is_empty() {
@@ -1218,7 +1285,44 @@ fn random_call(rng: &mut Rng, w: &World, policy: &Policy) -> Value {
                           "exp": cur_exp + *rng.pick(&[0, 1, 24, 48, 1000, -1])}]});
         }
     }
+    if (73..76).contains(&k) {
+        // verified data for a committed-capacity sector now and then (outside the goal-directed traces too)
+        let svs = sec_views(ms);
+        let cc: Vec<&SecView> = svs.iter().filter(|s| s.active() && s.vw == 0 && !w.updated.borrow().contains(&s.n)
+            && s.dl != cur && s.dl != (cur + 1) % nd && s.exp - epoch > 30).collect();
+        if !cc.is_empty() {
+            let have: Vec<(u64, String, String, u64)> = w.allocs.borrow().iter().filter(|a| a.1 == m).cloned().collect();
+            if have.is_empty() {
+                let kser = w.piece_serial.get();
+                w.piece_serial.set(kser + 1);
+                return json!({"a": "Alloc", "m": m, "pieces": [{"data": format!("pc{kser}"), "size": *rng.pick(&[2048, 2048, 1024])}],
+                              "tmin": 24, "tmax": *rng.pick(&[4000, 4000, 100]), "exp": epoch + *rng.pick(&[50, 50, 10])});
+            }
+            let s = *rng.pick(&cc);
+            let a = rng.pick(&have).clone();
+            // the same sector may be named twice, a piece may come without an allocation, rarely
+            let mut ups = vec![json!({"n": s.n, "dl": s.dl, "p": s.p, "pieces": [{"data": a.2, "size": a.3, "id": if rng.chance(92) { a.0 } else { 0 }}]})];
+            if cc.len() > 1 && rng.chance(30) {
+                let s2 = *rng.pick(&cc);
+                ups.push(json!({"n": s2.n, "dl": s2.dl, "p": s2.p, "pieces": []}));
+            }
+            return json!({"a": "ReplicaUpdate", "m": m, "c": who, "ups": ups, "requireAll": rng.chance(30)});
+        }
+    }
     if (71..73).contains(&k) && !parts.is_empty() {
+        // compaction: mostly of a deadline that is available for it (mutable, its dispute window over), naming one or
+        // two partitions without unproven or faulty sectors
+        let since = |d: i64| (epoch - pps - (d + 1) * wdw).rem_euclid(period);
+        let ok: Vec<&(i64, u64, Vec<u64>, Vec<u64>, Vec<u64>, Vec<u64>, Vec<u64>)> = parts.iter()
+            .filter(|p| p.0 != cur && p.0 != (cur + 1) % nd && since(p.0) >= policy.wpost_dispute_window && p.3.is_empty() && p.4.is_empty()).collect();
+        if !ok.is_empty() && rng.chance(85) {
+            let p = *rng.pick(&ok);
+            let mut ps = vec![p.1];
+            if let Some(q) = ok.iter().find(|q| q.0 == p.0 && q.1 != p.1) {
+                if rng.chance(50) { ps.push(q.1); }
+            }
+            return json!({"a": "Compact", "m": m, "c": who, "dl": p.0, "parts": ps});
+        }
         let p = rng.pick(&parts);
         return json!({"a": "Compact", "m": m, "c": who, "dl": p.0, "parts": [p.1]});
     }
